@@ -48,6 +48,8 @@ SIG = {
     'C09a': 'merge-inputs-sharing-a-file-name-overwrite-each-other',
     'C10a': 'append-session-empty-cache-skips-fieldset-check',
     'C07a': 'read-of-a-trajectory-larger-than-the-cache-raises-value-too-large',
+    'C09b': 'merge-input-named-like-the-merged-index-file',
+    'C10b': 'first-add-lacking-declared-associated-fieldset-creates-files-then-fails',
 }
 REJECT = ('ESchema', 'EIdUse', 'ERequired')
 REFUSE = ('EMissing', 'ENotNc', 'EBadExt', 'EExists', 'EDupNames', 'EFieldsets', 'EIdMix', 'EAssert', 'EArgs')
@@ -57,8 +59,9 @@ PF = ['fuel_flow', 'aircraft_mass', 'fuel_mass', 'ground_distance', 'altitude', 
 XFS = 'c07x'          # the extra field set: one per-trajectory int32 `atag`
 
 
-class InjectedFault(Exception):
-    pass
+class InjectedFault(OSError):
+    """what a failing file-system call raises: an OSError, as the real ones do (so that code which swallows
+    OSErrors is exercised too)"""
 
 
 class Env:
@@ -202,11 +205,14 @@ class Inject:
     def __init__(self, budget):
         self.budget = budget
         self.calls = 0
+        self.fired = False
         self.log = []
 
     def _wrap(self, name, fn):
         def w(*a, **k):
-            if self.budget is not None and self.calls >= self.budget:
+            if self.budget is not None and self.calls == self.budget and not self.fired:
+                # ONE call fails (a transient I/O error); code that swallows it carries on with working calls
+                self.fired = True
                 self.log.append(name + '!')
                 raise InjectedFault(f'injected failure at call {self.calls} ({name})')
             self.calls += 1
@@ -251,6 +257,7 @@ def impl_run(root: Path, hist):
     root.mkdir(parents=True, exist_ok=True)
     ts = None
     has_assoc = False
+    its = {}                 # live iterators of the current store object
     recs = []
     big = any(o.get('big') for o in hist)
 
@@ -265,7 +272,7 @@ def impl_run(root: Path, hist):
     for o in hist:
         k = o['op']
         rec = {'out': 'OUnit', 'keys': None}
-        if ts is None and k in ('add', 'get', 'len', 'iter', 'sync', 'close', 'get_flight'):
+        if ts is None and k in ('add', 'get', 'len', 'iter', 'sync', 'close', 'get_flight', 'iter_new', 'iter_next'):
             rec['out'] = ['OErr', 'ENoHandle']      # no store object to call (an earlier open was refused)
             recs.append(rec)
             continue
@@ -329,11 +336,22 @@ def impl_run(root: Path, hist):
                     keeps.append(keys() or [])
                 rec['out'] = ['OItems', tags, er]
                 rec['keeps'] = keeps
+            elif k == 'iter_new':
+                its[o['k']] = iter(ts)
+            elif k == 'iter_next':
+                if o['k'] not in its:
+                    rec['out'] = ['OErr', 'ENoHandle']
+                else:
+                    try:
+                        rec['out'] = ['OItem', tag_of(next(its[o['k']]))]
+                    except StopIteration:
+                        rec['out'] = 'OStop'
             elif k == 'sync':
                 ts.sync()
             elif k == 'close':
                 ts.close()
                 ts = None
+                its = {}
             elif k == 'get_flight':
                 t = ts.get_flight(o['id'])
                 rec['out'] = 'ONone' if t is None else ['OItem', tag_of(t)]
@@ -360,6 +378,7 @@ def impl_run(root: Path, hist):
             if k in ('create', 'create_mem', 'open_r', 'open_a'):
                 ts = None
                 has_assoc = False
+                its = {}
             if k == 'close' and ts is not None:
                 # as found, close() of a wedged store raises before releasing anything; release the files so
                 # that later operations of this history are not disturbed (the comparison stops here anyway)
@@ -489,6 +508,10 @@ def coq_op(o, rec=None, big=False, assoc=None):
     if k == 'iter':
         keeps = (rec or {}).get('keeps') or []
         return 'Iter [' + '; '.join(coq_nats(x) for x in keeps) + ']'
+    if k == 'iter_new':
+        return f"IterNew {int(o['k'])}"
+    if k == 'iter_next':
+        return f"IterNext {int(o['k'])}"
     if k == 'sync':
         return 'Sync'
     if k == 'close':
@@ -523,7 +546,7 @@ def coq_history(hist, recs):
 
 def model_out(v):
     """parsed Coq `out` -> the JSON form used for implementation outputs"""
-    if v in ('OUnit', 'ONone'):
+    if v in ('OUnit', 'ONone', 'OStop'):
         return v
     if isinstance(v, tuple):
         h = v[0]
@@ -609,7 +632,7 @@ class Oracle:
             if k in ('open_r', 'open_a') :
                 self.h = None
             return ['Any']
-        if h is None and k in ('add', 'get', 'len', 'iter', 'sync', 'close', 'get_flight'):
+        if h is None and k in ('add', 'get', 'len', 'iter', 'sync', 'close', 'get_flight', 'iter_new', 'iter_next'):
             return ['OErr', 'ENoHandle']
         if h is not None and k in ('create', 'create_mem', 'open_r', 'open_a', 'merge', 'inject_assoc'):
             return ['OErr', 'EBusy']
@@ -705,6 +728,20 @@ class Oracle:
                 x = it[o['i']]
                 return ['OItemAny', [x[1]]] if x[0] == HOLE else ['OItem', x[0]]
             return ['OErr', 'EIndex']
+        if k == 'iter_new':
+            h.setdefault('iters', {})[o['k']] = 0          # every iterator has its own cursor
+            return 'OUnit'
+        if k == 'iter_next':
+            cur = h.get('iters', {}).get(o['k'])
+            if cur is None:
+                return ['OErr', 'ENoHandle']
+            it = self.items()
+            if cur < len(it):
+                h['iters'][o['k']] = cur + 1
+                h['touched'] = True
+                x = it[cur]
+                return ['OItemAny', [x[1]]] if x[0] == HOLE else ['OItem', x[0]]
+            return 'OStop'
         if k == 'len':
             return ['OLen', len(self.items())]
         if k == 'iter':
@@ -1077,11 +1114,17 @@ def final_state_check(hist, recs, view, orc: Oracle, orc6: Oracle = None, leftov
             got = here[1] if here is not None else there
             if got != want:
                 return (f'interrupted merge: input {p} holds {got}, expected {want}', hole_sig(p, got))
-        if d and d[4] != 0:
-            if d[4] == 2 and (d[3] != [[p[1], len(orc.files[p]['items'])] for p in ins]
-                              or sorted(members) != sorted(p[1] for p in ins)
-                              or (all(orc.files[p]['ident'] for p in ins) and d[2] != 2)):
-                return ('interrupted merge: metadata.json announces a complete store that is not there', None)
+        merge_out = next((r['out'] for o, r in zip(reversed(hist), reversed(recs)) if o['op'] == 'merge'), None)
+        complete = bool(d) and d[4] == 2 and d[3] == [[p[1], len(orc.files[p]['items'])] for p in ins] \
+            and sorted(members) == sorted(p[1] for p in ins) \
+            and (not all(orc.files[p]['ident'] for p in ins) or d[2] == 2)
+        # whether merge raised or returned: a directory that announces itself (metadata.json lists stores) must hold
+        # every member and, if the inputs were identified, the index; and a merge that RETURNED must have completed
+        if d and d[4] == 2 and not complete:
+            return ('merge left a metadata.json that announces a complete store, but members or the identifier index '
+                    f'are missing: {d}', None)
+        if merge_out == 'OUnit' and not complete:
+            return (f'merge returned normally although a file-system call failed, and the store is not complete: {d}', None)
         for p, st in orc.files.items():
             got = (vmap.get(p) or [None, None])[1]
             if p not in ins and got != [t for (t, _) in st['items']]:
@@ -1195,6 +1238,55 @@ class Gen:
             o['sig'] = 1 - sig
         return o
 
+    def iterator_burst(self, sig, ident):
+        """several iterators of ONE store: advanced alternately (zip), nested loops, a restart while another is half-way,
+        iteration interleaved with additions and reads"""
+        rng = self.rng
+        n = min(len(self.orc.items()), 5)
+        nx = lambda k: self.emit(dict(op='iter_next', k=k))  # noqa: E731
+        new = lambda k: self.emit(dict(op='iter_new', k=k))  # noqa: E731
+        pat = rng.choice(['zip', 'zip3', 'nested', 'restart', 'interleave'])
+        if pat == 'zip':
+            new(0), new(1)
+            for _ in range(n + 1):
+                nx(0), nx(1)
+        elif pat == 'zip3':
+            new(0), new(1), new(2)
+            for _ in range(min(n, 3) + 1):
+                nx(0), nx(1), nx(2)
+        elif pat == 'nested':
+            new(0)
+            for _ in range(min(n, 3) + 1):
+                if nx(0) == 'OStop':
+                    break
+                new(1)
+                for _ in range(n + 1):
+                    if nx(1) == 'OStop':
+                        break
+        elif pat == 'restart':
+            new(0)
+            for _ in range(rng.randint(1, max(n, 1))):
+                nx(0)
+            new(1), nx(1)
+            nx(0)
+            if rng.random() < 0.5:
+                new(0)                     # the same iterator object restarted
+            for _ in range(n + 1):
+                nx(0)
+            nx(1)
+        else:
+            new(0), nx(0)
+            if self.orc.h['mode'] != 'read':
+                self.emit(self.valid_add(sig, ident))
+            nx(0)
+            self.emit(dict(op='get', i=self.read_index()))
+            new(1), nx(1), nx(0)
+            if self.orc.h['mode'] != 'read':
+                self.emit(self.valid_add(sig, ident))
+            for _ in range(n + 2):
+                nx(0)
+            nx(1)
+
     def read_index(self):
         h = self.orc.h
         n = len(self.orc.items())
@@ -1222,7 +1314,7 @@ class Gen:
             d = orc.definition()
             sig, ident = (d if d is not None else h.get('plan', (0, False)))
             w = {'add': 4 if h['mode'] != 'read' else 0.3, 'get': 4, 'len': 1.2, 'iter': 1.0, 'sync': 0.6,
-                 'close': 0.9, 'lookup': 0.0, 'bad': 0.0}
+                 'close': 0.9, 'lookup': 0.0, 'bad': 0.0, 'iters': 1.3 if f == 'C07' else 0.0}
             if f == 'C07':
                 w['get'] = 6
                 w['lookup'] = 0.5 if ident else 0.05
@@ -1265,6 +1357,8 @@ class Gen:
                 self.emit(dict(op='len'))
             elif k == 'iter':
                 self.emit(dict(op='iter'))
+            elif k == 'iters':
+                self.iterator_burst(sig, ident)
             elif k == 'sync':
                 self.emit(dict(op='sync'))
             elif k == 'lookup':
@@ -1529,7 +1623,10 @@ def crash_scenarios(max_inputs):
                 ops.append(dict(op='merge', out=[0, 50, 1], ins=paths, fault=k))
                 for p in paths:                       # where are the inputs now?  readable?
                     ops += [dict(op='open_r', p=p, cache=1), dict(op='iter'), dict(op='close')]
-                ops += [dict(op='open_r', p=[0, 50, 1], cache=1), dict(op='len'), dict(op='iter'), dict(op='close')]
+                ops += [dict(op='open_r', p=[0, 50, 1], cache=1), dict(op='len'), dict(op='iter')]
+                if ident:                             # a complete identified store resolves every identifier
+                    ops += [dict(op='get_flight', id=1000 - 1), dict(op='get_flight', id=3)]
+                ops.append(dict(op='close'))
                 out.append({'name': f'crash:n{n}:{"id" if ident else "noid"}:call{k}', 'ops': ops})
     return out
 
@@ -1802,3 +1899,92 @@ def assoc_split_history(rng, base_sizes=None, assoc_sizes=None, ident=None):
     ops += [dict(op='iter'), dict(op='get', i=rng.randrange(total)), dict(op='close'),
             dict(op='open_r', p=MB, cache=1), dict(op='get', i=0), dict(op='close')]
     return ops
+
+
+def reserved_name_scenarios(chk: Check):
+    """FC09b: an input store whose file is called `_index.nc` (the name of the merged flight-id index).  Oracle only:
+    either the merge is refused and both inputs stay where they were, or the merged store is the concatenation."""
+    e = Env.get()
+    TS = e.TS
+    for ident in (True, False):
+        root = chk.tmp / f'reserved{int(ident)}'
+        root.mkdir(parents=True, exist_ok=True)
+        a, b, out = root / '_index.nc', root / 's1.nc', root / 'm.aeic-store'
+        for p, tags in ((a, [1, 2]), (b, [3])):
+            with TS.create(base_file=p) as ts:
+                for t in tags:
+                    ts.add(e.mk(t, (100 + t) if ident else None, 0, 'ok'))
+        case = {'name': f'merge-input-named-_index.nc:{"id" if ident else "noid"}'}
+        chk.case(case, nontrivial=True)
+        chk.count('reserved_name_scenarios')
+        try:
+            TS.merge(output_store=out, input_stores=[a, b])
+            outcome = 'returned'
+        except ValueError as ex:
+            outcome = 'refused:' + str(ex)[:60]
+        except Exception as ex:  # noqa: BLE001
+            outcome = f'raised {type(ex).__name__}: {ex}'[:120]
+        gc.collect()
+        ok = False
+        detail = outcome
+        if outcome.startswith('refused') and a.exists() and b.exists() and not out.exists():
+            ok = raw_tags(a) == [1, 2] and raw_tags(b) == [3]
+        elif outcome == 'returned':
+            try:
+                with TS.open(base_file=out) as ts:
+                    got = [tag_of(t) for t in ts]
+                    looked = tag_of(ts.get_flight(102)) if ident else 2
+                ok = got == [1, 2, 3] and looked == 2
+                detail += f', merged store reads {got}'
+            except Exception as ex:  # noqa: BLE001
+                detail += f', but the merged store cannot be read: {type(ex).__name__}: {ex}'[:160]
+        if ok:
+            chk.traces_validated += 1
+        else:
+            chk.fail(f"{case['name']}: {detail}; on disk: {sorted(x.name for x in root.rglob('*') if x.is_file())}",
+                     dict(case, outcome=detail), signature=SIG['C09b'])
+
+
+def declared_associated_scenarios(chk: Check):
+    """FC10b: a store created with associated files; its FIRST trajectory lacks a field set declared for them.  The
+    addition must be rejected and leave nothing: no files, length 0, the next (complete) trajectory gets index 0."""
+    e = Env.get()
+    TS = e.TS
+    for ident in (False, True):
+        root = chk.tmp / f'declared{int(ident)}'
+        root.mkdir(parents=True, exist_ok=True)
+        p, ap = root / 'b.nc', root / 'a.nc'
+        case = {'name': f'first-add-lacks-declared-associated-fieldset:{"id" if ident else "noid"}'}
+        chk.case(case, nontrivial=True)
+        chk.count('declared_associated_scenarios')
+        obs = {}
+        ts = TS.create(base_file=p, associated_files=[(ap, [XFS])])
+        try:
+            ts.add(e.mk(1, 9 if ident else None, 0, 'ok'))
+            obs['bad_add'] = 'accepted'
+        except Exception as ex:  # noqa: BLE001
+            obs['bad_add'] = type(ex).__name__
+        obs['len_after'] = len(ts)
+        obs['files_after'] = [p.exists(), ap.exists()]
+        try:
+            obs['good_add'] = int(ts.add(e.mk(2, 8 if ident else None, 1, 'ok')))
+        except Exception as ex:  # noqa: BLE001
+            obs['good_add'] = f'{type(ex).__name__}: {ex}'[:80]
+        try:
+            ts.close()
+            with TS.open(base_file=p, associated_files=[ap]) as r:
+                obs['reopen'] = [(tag_of(t), int(t.atag)) for t in r]
+        except Exception as ex:  # noqa: BLE001
+            obs['reopen'] = f'{type(ex).__name__}: {ex}'[:80]
+        gc.collect()
+        ok = (obs['bad_add'] != 'accepted' and obs['len_after'] == 0 and obs['files_after'] == [False, False]
+              and obs['good_add'] == 0 and obs['reopen'] == [(2, 1002)])
+        if ok:
+            chk.traces_validated += 1
+        else:
+            chk.fail(f"{case['name']}: the rejected first addition left traces: {obs}", dict(case, observed=jsonable_obs(obs)),
+                     signature=SIG['C10b'])
+
+
+def jsonable_obs(o):
+    return json.loads(json.dumps(o, default=str))
